@@ -17,6 +17,8 @@ fn check_get_range(lo: usize, hi: usize) {
             Ok(f) => {
                 assert!(spec_bytes_eq(&f.name, SPEC_STATIC_TABLE[i].0));
                 assert!(spec_bytes_eq(&f.value, SPEC_STATIC_TABLE[i].1));
+                // size bound the Verus unit (qpack_stateless) uses for its overflow argument
+                assert!(f.name.len() + f.value.len() <= 100 && f.mem_size() <= 132);
             }
             Err(_) => {
                 assert!(false);
@@ -194,15 +196,16 @@ fn check_no_false_hit(nb: &[u8], vb: &[u8], nmax: usize, vmax: usize) -> (usize,
     (pair_hits, name_hits)
 }
 
-// vp: props=C11; tag=C11.static.nofalsehit; kind=bounded; bound=name <= 5 bytes, value <= 2 bytes; tier=quick
+// vp: props=C11; tag=C11.static.nofalsehit; kind=bounded; bound=name <= 4 bytes, value <= 1 byte; tier=quick
 #[kani::proof]
 #[kani::unwind(100)]
 fn c11_static_no_false_hit_short() {
-    let nb: [u8; 5] = kani::any();
-    let vb: [u8; 2] = kani::any();
-    let (ph, nh) = check_no_false_hit(&nb, &vb, 5, 2);
-    kani::cover!(ph == 2 && nb[0] == b':'); // (":path", "/") and (":path"[..]...) — two pair hits in one run
-    kani::cover!(nh == 1 && nb[0] == b'r'); // "range"
+    let nb: [u8; 4] = kani::any();
+    let vb: [u8; 1] = kani::any();
+    let (ph, nh) = check_no_false_hit(&nb, &vb, 4, 1);
+    kani::cover!(ph == 1 && nb[0] == b'a'); // ("age", "0")
+    kani::cover!(ph == 1 && nh == 1 && nb[0] == b'e'); // ("etag", "")
+    kani::cover!(nh == 1 && ph == 0 && nb[0] == b'v'); // "vary" by name only
     kani::cover!(ph == 0 && nh == 0);
 }
 
